@@ -82,6 +82,7 @@ func c17Run(t *testing.T, cfg c17Config) c17Result {
 	fail := func(key, format string, a ...any) {
 		if res.fail == nil {
 			res.fail = explore.Failf(cause+":"+key, "%v: %s", cfg, fmt.Sprintf(format, a...))
+			explore.NoteCurrent(explore.GetEnv(), res.fail.Key, res.fail.What)
 		}
 	}
 	ok := sim.Run(t, "run", cfg.Seed, func(t *testing.T) {
